@@ -16,6 +16,7 @@ from ..seams import SimRandom, SimClock, SimStore, set_tz, TZ_CHOICES
 from .fcsim import call, result_view
 
 DAY_MS = 86400000
+LOOKUP_FRACS = (0.05, 0.25, 0.5, 0.75, 0.95)
 
 
 def generate(R, tier, focus):
@@ -36,8 +37,12 @@ def generate(R, tier, focus):
         else:
             ax = R.randint(-40, 40) * dh * R.choice((1, 3, 7))
             ay = R.randint(-30, 30) * dh * R.choice((1, 3, 5))
-        ax = max(-170.0, min(160.0, ax))
-        ay = max(-70.0, min(60.0, ay))
+        if R.random() < 0.25:
+            # lattice not aligned with multiples of dh: two-decimal anchors such as 0.29 or -117.43
+            ax += R.randint(1, 9) * 0.01
+            ay += R.randint(1, 9) * 0.01
+        ax = gen.dec(max(-170.0, min(160.0, ax)))
+        ay = gen.dec(max(-70.0, min(60.0, ay)))
         cells = []
         for i in range(nx):
             for j in range(ny):
@@ -103,6 +108,9 @@ def generate(R, tier, focus):
         elif x < 0.42:
             # the same file loaded again later in the process: must be pristine and independent of the first object
             ops.append({'op': 'RELOAD', 'v': R.choice((2, 0.5, 7.0)), 'actor': actor})
+        elif x < 0.46 and not quad:
+            # another forecast file on the same cells with other magnitude bins is loaded later in the process
+            ops.append({'op': 'LOAD_OTHER', 'shift': R.choice((0.5, 1.0, 0.05)), 'extra_bins': R.randint(0, 2), 'actor': actor})
         elif x < 0.5:
             ops.append({'op': 'READ', 'actor': actor})
         elif x < 0.75:
@@ -112,8 +120,8 @@ def generate(R, tier, focus):
                 where = R.choice(('interior', 'interior', 'corner', 'corner', 'lon-edge', 'lat-edge'))
                 mk = R.randrange(nm)
                 mwhere = R.choice(('interior', 'edge', 'edge', 'top'))
-                pts.append({'cell': ci, 'where': where, 'fx': R.choice(gen.FRACS), 'fy': R.choice(gen.FRACS),
-                            'mbin': mk, 'mwhere': mwhere, 'fm': R.choice(gen.FRACS)})
+                pts.append({'cell': ci, 'where': where, 'fx': R.choice(LOOKUP_FRACS), 'fy': R.choice(LOOKUP_FRACS),
+                            'mbin': mk, 'mwhere': mwhere, 'fm': R.choice(LOOKUP_FRACS)})
             ops.append({'op': 'LOOKUP', 'points': pts, 'actor': actor})
         elif x < 0.8 and not quad:
             ops.append({'op': 'LOOKUP_OUTSIDE', 'which': R.choice(('hole', 'left', 'below', 'right', 'above')),
@@ -195,7 +203,13 @@ def _point(scn, fc, p, cell_index_of):
     """lookup point for spec p: (lon, lat, mag)"""
     c = scn['cells'][p['cell']]
     if scn['region']['kind'] == 'quad':
-        b = fc.region.bounds[cell_index_of[p['cell']]]
+        # the tile is identified by its quadkey (not by its position in the region); exact corners come from the
+        # loaded region's own bounds of that quadkey, interiors from the tile geometry
+        qks = [str(q) for q in fc.region.quadkeys]
+        if c['qk'] in qks:
+            b = fc.region.bounds[qks.index(c['qk'])]
+        else:
+            b = gen.quadkey_bounds(c['qk'])
         lon0, lat0, lon1, lat1 = float(b[0]), float(b[1]), float(b[2]), float(b[3])
     else:
         lon0, lat0, lon1, lat1 = c['lon0'], c['lat0'], c['lon1'], c['lat1']
@@ -314,6 +328,25 @@ def _execute(scn, ctx, store, clock, rng):
                 # docstring: "scale the forecast by unity"; code: leaves the factor. Both accepted.
                 factor['alts'] = [factor['v'], 1]
                 ctx.count('rare:scale_to_date_out_of_window')
+        elif kind == 'LOAD_OTHER':
+            other = copy.deepcopy(scn)
+            e0 = other['mags']['edges']
+            n_new = len(e0) + op['extra_bins']
+            other['mags'] = {'dm': scn['mags']['dm'], 'edges': [gen.dec(e0[0] + op['shift'] + k * scn['mags']['dm'], 4)
+                                                                 for k in range(n_new)]}
+            for c in other['cells']:
+                c['rates'] = [float(k + 1) for k in range(n_new)]
+            other['name'] = scn['name'] + '_other'
+            p2 = store.path(other['name'] + '.dat')
+            write_dat(p2, other)
+            r = call(load_forecast, p2, other)
+            ctx.count('load_other_checked')
+            if r[0] == 'ok':
+                call(r[1].scale, 3.0)
+            got_m = numpy.asarray(fc.magnitudes, dtype=float).tolist()
+            if got_m != [float(x) for x in edges]:
+                ctx.violate('C11', 'magnitudes', 'edges-changed-by-loading-another-file', {'op': oi, 'got': got_m, 'want': edges})
+                return
         elif kind == 'RELOAD':
             r = call(load_forecast, path, scn)
             if r[0] != 'ok':
